@@ -30,8 +30,10 @@ REQUEST_COROS = {"_request_pause_coro", "_abort_coro", "_stop_coro", "_halt_coro
 
 class Scenario:
     def __init__(self, I, plan_msgs, env=(), post_pause=("resume", "abort", "stop", "halt"), max_requests=None, handles=True,
-                 can_raise=True, engine_kw=None, max_inflight=1, max_depth=2):
+                 can_raise=True, engine_kw=None, max_inflight=1, max_depth=2, second_call=None):
         self.max_depth = max_depth
+        self.second_call = second_call
+        self.returns_result = bool((engine_kw or {}).get("call_returns_result"))
         self.I, self.w = I, I.w
         w = I.w
         self.eng = eng = Engine(I, **(engine_kw or {}))
@@ -64,6 +66,14 @@ class Scenario:
             f.msg = a[0]
             self.devfuts.append(f)
             eng.event("handler-suspends", a[0], f)
+            plain_cancel = f.cancel
+
+            def cancel():
+                r = plain_cancel()
+                if r:
+                    eng.event("handler-cancelled", a[0], f)
+                return r
+            f.cancel = cancel
             return f.facade
         call_method(I, self.re, "register_command", "custom", native(custom))
         call_method(I, self.re, "register_command", "custom_async", native(custom_async))
@@ -167,4 +177,12 @@ class Scenario:
             calls.append((d, r))
             if on_return:
                 on_return(d, r)
+        if self.second_call is not None and eng.state == "idle":
+            # the next plan on the same engine: what the previous call left behind must not leak into it
+            names = list(self.second_call)
+            self.plan = Plan(eng, "plan2", lambda p: [(m, ALPHABET[m]) for m in names], handles=False, can_raise=False, max_len=1)
+            self.requests = []
+            self.env_kinds = ()
+            r = eng.call("__call__", self.plan)
+            calls.append(("__call__#2", r))
         return calls
